@@ -38,7 +38,10 @@ ALIAS_FUNCS = {"numpy.asarray", "numpy.asanyarray", "numpy.ravel", "numpy.squeez
                "scipy.sparse.coo_array", "scipy.sparse.coo_matrix", "scipy.sparse.csr_array", "scipy.sparse.csr_matrix",
                "scipy.sparse.csc_array", "scipy.sparse.csc_matrix", "builtins.iter", "builtins.reversed"}
 MUTATING_METHODS = {"sort", "fill", "resize", "setdiag", "eliminate_zeros", "sum_duplicates", "append", "extend", "pop", "insert", "remove",
-                    "clear", "update", "reverse", "itemset", "put", "partition", "sort_indices", "prune", "setflags", "byteswap"}
+                    "clear", "update", "reverse", "itemset", "put", "partition", "sort_indices", "prune", "setflags", "byteswap",
+                    # MDAnalysis AtomGroup / Universe in-place geometry changes
+                    "translate", "rotate", "rotateby", "transform", "wrap", "unwrap", "pack_into_box", "align_principal_axis",
+                    "add_transformations"}
 MUTATING_FUNCS = {"numpy.random.shuffle": 0, "random.shuffle": 0, "numpy.fill_diagonal": 0, "numpy.put": 0, "numpy.place": 0,
                   "numpy.copyto": 0, "numpy.putmask": 0}
 
@@ -132,6 +135,25 @@ class AliasAnalysis:
                                     return True
         return False
 
+    def _attr_assignments(self, ci: Optional[ClassInfo], attr: str):
+        """(function, value) of every `self.<attr> = value` in the class hierarchy of ci (cached)"""
+        if ci is None:
+            return []
+        key = (id(ci), attr)
+        cache = self.__dict__.setdefault("_attr_cache", {})
+        if key in cache:
+            return cache[key]
+        out = []
+        for c in set(ci.mro()) | set(self.repo.subclasses(ci)):
+            for m in c.methods.values():
+                for n in _walk_fn(m.node):
+                    if isinstance(n, ast.Assign):
+                        for tg in n.targets:
+                            if isinstance(tg, ast.Attribute) and isinstance(tg.value, ast.Name) and tg.value.id == "self" and tg.attr == attr:
+                                out.append((m, n.value))
+        cache[key] = out
+        return out
+
     def _memo_key(self, f: FunctionInfo, c: ast.expr):
         s = src(c)
         if s.startswith("self.") and f.cls is not None:
@@ -209,12 +231,20 @@ class AliasAnalysis:
             return out
         if isinstance(e, ast.Attribute):
             if isinstance(e.value, ast.Name) and e.value.id == "self":
-                return {("state", f.cls.name if f.cls else "?", e.attr)}
+                out = {("state", f.cls.name if f.cls else "?", e.attr)}
+                for g, v in self._attr_assignments(f.cls, e.attr):
+                    for o in self.origins(v, g, depth + 1):
+                        if o[0] in ("memo", "leaked", "default"):
+                            out.add(o)
+                return out
             if e.attr in ALIAS_ATTRS:
                 return self.origins(e.value, f, depth + 1)
             base = self.origins(e.value, f, depth + 1)
-            # attribute of another repository object: that object's state
-            return {("state", "?", e.attr)} if any(o[0] in ("state", "param", "self") for o in base) else {FRESH}
+            # a sub-object of a memoised / leaked object lives as long as that object; attribute of another repository object: its state
+            out = {o for o in base if o[0] in ("memo", "leaked", "default")}
+            if any(o[0] in ("state", "param", "self") for o in base):
+                out.add(("state", "?", e.attr))
+            return out or {FRESH}
         if isinstance(e, ast.Subscript):
             mk = self._memo_key(f, e.value)
             if mk is not None:
@@ -244,7 +274,7 @@ class AliasAnalysis:
     def _candidates(self, call: ast.Call, f: FunctionInfo) -> Optional[List[FunctionInfo]]:
         fn = call.func
         if isinstance(fn, ast.Name):
-            r = self.repo.resolve_name(f.module, fn.id)
+            r = self._unwrap(self.repo.resolve_name(f.module, fn.id))
             if isinstance(r, FunctionInfo):
                 return [r]
             if isinstance(r, ClassInfo):
@@ -263,7 +293,7 @@ class AliasAnalysis:
                         return [b.methods[name]]
             d = self.repo.dotted_of(f.module, fn)
             if d is not None:
-                r = self.repo.resolve_dotted(d)
+                r = self._unwrap(self.repo.resolve_dotted(d))
                 if isinstance(r, FunctionInfo):
                     return [r]
                 if isinstance(r, ClassInfo):
@@ -272,6 +302,23 @@ class AliasAnalysis:
                     return None
             c = [g for g in self.by_name.get(name, []) if g.cls is not None]
             return c if c else None
+        return None
+
+    def _resolve_callable(self, call: ast.Call, f: FunctionInfo):
+        fn = call.func
+        try:
+            if isinstance(fn, ast.Name):
+                return self._unwrap(self.repo.resolve_name(f.module, fn.id))
+            d = self.repo.dotted_of(f.module, fn)
+            return self._unwrap(self.repo.resolve_dotted(d)) if d else None
+        except Exception:
+            return None
+
+    @staticmethod
+    def _unwrap(r):
+        """Repo.resolve_* return ('func', fi) | ('class', ci) | ... -> the info object (or None)"""
+        if isinstance(r, tuple) and len(r) == 2 and r[0] in ("func", "class"):
+            return r[1]
         return None
 
     def _bind_args(self, call: ast.Call, g: FunctionInfo) -> Dict[str, ast.expr]:
@@ -351,8 +398,10 @@ class AliasAnalysis:
                 elif o[0] == "self":
                     out |= self.origins(fn.value, f, depth + 1) if isinstance(fn, ast.Attribute) else {UNKNOWN}
                 elif o[0] == "state":
-                    # state of the callee's object, obtained through a call
-                    out.add(("leaked", o[1], o[2], g.where))
+                    # state of the callee's object, obtained through a call; a temporary owner `Cls(..).getter()` is not shared
+                    owner = fn.value if isinstance(fn, ast.Attribute) else None
+                    temp_owner = isinstance(owner, ast.Call) and isinstance(self._resolve_callable(owner, f), ClassInfo)
+                    out.add(FRESH if temp_owner else ("leaked", o[1], o[2], g.where))
                 else:
                     out.add(o)
         return out or {FRESH}
